@@ -55,3 +55,25 @@ reg(
     "argparse declaration extraction + path enumeration of the runners + keyword/parameter matching against API signatures",
     "DESIGN.md §2 C34",
 )
+
+reg(
+    "C01",
+    "Decides structural clauses: (R01.1) every return path of get_modified_ts stores node times produced by constrain_ages with the caller's validated min_branch_length and constr_iterations, and every method returns through it; (R01.2) typestate of the output tables (column writes < sort < build_index < compute_mutation_parents < compute_mutation_times < tree_sequence, mutation times reset first, same object returned); (R01.3) shape of the forced pass; (R01.4) a four-rule floating-point-sound order calculus derives parent > child and parent >= child (+) eps after the forced store and on its skip branch. Validity of the rest of the tables (tskit's job) and the least-squares phase are not decided.",
+    "Trusted: tskit sorts edges by parent time (one-pass argument); IEEE-754 monotone rounding for the calculus; path enumeration treats loops as 0/1 iterations.",
+    "must-pass-through over enumerated paths, typestate automaton, symbolic order derivation on the store/guard shapes",
+    "DESIGN.md §2 C01",
+)
+reg(
+    "C23",
+    "Decides: (R23.1) in reallocate_unphased each singleton contributes phi to the first and 1-phi to the second edge of its own block row, together, into the count column, after zeroing exactly the unphased edges; (R23.2) orientation typestate of the phase vector in infer: the placement rule and rescale (-> reallocate_unphased) consume the block-oriented vector on every path before the statement that flips it to the placed edge. The phase probabilities themselves are not decided.",
+    "Trusted: recognised flip statement shape `phase[m] = 1 - phase[m]`; path enumeration with loops 0/1.",
+    "pairing rule on increments; typestate (orientation) over enumerated paths of infer with method effect summaries",
+    "DESIGN.md §2 C23",
+)
+reg(
+    "C35",
+    "Decides: (R35.1) each invalid parameter class named in the statement is rejected by a ValueError/NotImplementedError guard in the shared constructor or method entry; (R35.2) NaN-aware interprocedural interval propagation of pure copies of public parameters shows every literal-comparison assert on the API call graph is implied on each flow (else AssertionError escapes); (R35.3) no definite numba-signature mismatch at kernel call sites reachable from the API; (R35.4) documented result shape and exception types of the entry layer. Reachability of data-dependent internal assertions and exceptions raised inside tskit/numba are not decided.",
+    "Trusted: call graph over-approximation (class hierarchy by name); E2 tables; only pure copies are tracked, computed values are 'unknown' and never reported.",
+    "guard recognition + interprocedural interval analysis over the call graph + E2 signature conformance",
+    "DESIGN.md §2 C35",
+)
